@@ -400,7 +400,8 @@ def run_check(check, tier, seed, out=sys.stdout):
     for ln in lines:
         print(ln, file=out)
     print('%s tier=%s seed=%s runs=%d distinct=%d status=%s violations=%d known=%d '
-          'wall=%.0fs exit=%d' % (check.ID, tier, seed, agg['runs'], ndist, agg['status'],
+          'wall=%.0fs exit=%d' % (check.ID, tier, seed, ev['coverage']['evaluations'],
+                                  ev['coverage']['distinct_nontrivial'], agg['status'],
                                   len(new), len(known_hit), wall, exit_code), file=out)
     return exit_code
 
